@@ -351,6 +351,110 @@ def _case(gstrat, lex):
     return c()
 
 
+# ------------------------------------------------ objects created by the obj action
+def named_grammar(cfg, layout):
+    """every right-hand-side symbol gets a name (n0=..., n1=...), so every rule builds objects through the
+    default obj action"""
+    by = {}
+    for lhs, rhs in cfg.prods:
+        by.setdefault(lhs, []).append(" ".join("n%d=%s" % (i, x) for i, x in enumerate(rhs)) if rhs else "EMPTY")
+    lines = ["%s: %s;" % (n, " | ".join(by[n])) for n in cfg.nts if n in by]
+    if layout != "ws":
+        lines.append(LAYOUT_RULES.strip())
+    lines.append("terminals")
+    for n, k, v in cfg.terms:
+        lines.append("%s: '%s';" % (n, v))
+    if layout != "ws":
+        lines.append(LAYOUT_TERMS.strip())
+    return "\n".join(lines) + "\n"
+
+
+def compare_obj(node, obj, path, problems, obj_rules):
+    """parallel walk: tree node <-> object built for it"""
+    if node.symbol.name not in obj_rules:
+        return      # a rule with only EMPTY alternatives has no named match, hence no obj action
+    if not hasattr(obj, "_pg_start_position"):
+        problems.append("%s: result %r is not an object of the obj action" % (path, type(obj).__name__))
+        return
+    if (obj._pg_start_position, obj._pg_end_position) != (node.start_position, node.end_position):
+        problems.append("%s: object says [%r, %r], tree node %s says [%r, %r]" % (
+            path, obj._pg_start_position, obj._pg_end_position, node.symbol.name, node.start_position,
+            node.end_position))
+        return
+    for i, ch in enumerate(node.children):
+        v = getattr(obj, "n%d" % i, None)
+        if ch.is_term():
+            if v != ch.value:
+                problems.append("%s.n%d: attribute %r, token %r" % (path, i, v, ch.value))
+        else:
+            compare_obj(ch, v, "%s.n%d" % (path, i), problems, obj_rules)
+
+
+def run_obj(case, ctx):
+    cfg = CFG.from_json(case["g"])
+    layout = case["layout"]
+    text_g = named_grammar(cfg, layout)
+    obj_rules = {lhs for lhs, rhs in cfg.prods if rhs}
+    info0 = dict(grammar=text_g)
+    try:
+        glr = pgl.GLRParser(pgl.Grammar.from_string(text_g))
+    except Exception as e:
+        ctx.fail("grammar-with-named-matches-rejected", error=repr(e)[:300], **info0)
+    try:
+        lr_tree = pgl.Parser(pgl.Grammar.from_string(text_g), build_tree=True)
+        lr_fly = pgl.Parser(pgl.Grammar.from_string(text_g))
+    except (SRConflicts, RRConflicts):
+        lr_tree = lr_fly = None
+    dead = False
+    for k, w in enumerate(G.l0_inputs(cfg, case["max_len"], junk_upto=0)):
+        text = G.render(w, case["fill"], k)
+        info = dict(input=text, **info0)
+        if lr_tree is not None and not dead:
+            a = G.run_parse_soft(lr_tree, text, 0.5)
+            if a.kind == "timeout":
+                dead = True
+                ctx.label("lr-slow-or-nonterminating (skipped)")
+            elif a.kind == "ok":
+                b = G.run_parse_soft(lr_fly, text, 0.5)
+                if b.kind != "ok":
+                    ctx.fail("actions-change-acceptance", outcome=b.kind, **info)
+                for route, objs in (("on the fly", b.value), ("call_actions", lr_tree.call_actions(a.value))):
+                    problems = []
+                    compare_obj(a.value, objs, "S", problems, obj_rules)
+                    if problems:
+                        ctx.fail("object-positions-differ-from-tree-node", parser="LR", route=route,
+                                 problem=problems[0], **info)
+                ctx.label("lr-object-trees-compared")
+                if w:
+                    ctx.nontrivial([case["g"], layout, text, "LR"], sample={"grammar": text_g, "input": text})
+        out = G.run_parse(glr, text)
+        if out.kind != "ok":
+            continue
+        n, loop = G.forest_len(out.value)
+        if loop:
+            continue
+        for i in range(min(n, 12)):
+            for tree in (out.value[i], out.value.get_nonlazy_tree(i)):
+                problems = []
+                compare_obj(tree, glr.call_actions(tree), "S", problems, obj_rules)
+                if problems:
+                    ctx.fail("object-positions-differ-from-tree-node", parser="GLR", index=i, problem=problems[0],
+                             **info)
+        ctx.label("glr-object-trees-compared")
+        if w:
+            ctx.nontrivial([case["g"], layout, text, "GLR"], sample={"grammar": text_g, "input": text, "trees": n})
+
+
+def strat_obj(tier):
+    @st.composite
+    def c(draw):
+        g = draw(gen.cfgs(max_nts=3, max_alts=3, max_rhs=3).filter(gen.acyclic))
+        layout = draw(st.sampled_from(["ws", "ws", "comments"]))
+        fill = draw(st.lists(st.sampled_from(WS_FILL if layout == "ws" else CM_FILL), min_size=3, max_size=6))
+        return {"g": g, "layout": layout, "fill": fill, "max_len": 4 if len(g["terms"]) <= 2 else 3}
+    return c()
+
+
 def strat_l0(tier):
     return _case(gen.cfgs(max_nts=3, max_alts=3, max_rhs=3), "L0")
 
@@ -416,6 +520,7 @@ SUBCHECKS = [
     SubCheck("random-L1-tokens-across-layout", run_case, strategy=strat_l1_space,
              examples={"quick": 960, "thorough": 9600}),
     SubCheck("nullable-chain-family", run_case, strategy=strat_chain, examples={"quick": 640, "thorough": 6400}),
+    SubCheck("objects-carry-node-positions", run_obj, strategy=strat_obj, examples={"quick": 640, "thorough": 6400}),
 ]
 
 
